@@ -5,7 +5,9 @@ package gen
 import (
 	"bytes"
 	"encoding/binary"
+	"hash/crc32"
 	"sort"
+	"sync"
 
 	"pgregory.net/rapid"
 )
@@ -107,6 +109,43 @@ var patterns = []string{"rand", "zero", "ff", "x91", "marker", "markhdr", "markx
 
 var tails = [][]byte{nil, nil, nil, {0x91}, {0x91, 0x8d}, {0x91, 0x8d, 0x4c}, {0x00}, {0x80}}
 
+var (
+	hdrOnce sync.Once
+	hdrLens [3][]int
+)
+
+// HeaderBoundaryLengths returns payload lengths (uncompressed records) whose RecordIO v4 record header carries a
+// checksum with an unusual varint shape, one list per shape: [0] ending in the septets 0x80 0x01 (the value that is left
+// is exactly 0x80 at some step of a varint loop; about one length in two thousand), [1] fewer than five bytes, [2]
+// containing the first two marker bytes. Such headers are rare, so they are looked up instead of hoped for. The header
+// layout is re-stated here only to find the lengths; if the writer's layout differs they are merely arbitrary lengths.
+func HeaderBoundaryLengths() [3][]int {
+	hdrOnce.Do(func() {
+		tab := crc32.MakeTable(crc32.Castagnoli)
+		buf := make([]byte, 64)
+		for n := 1; n <= 70000; n++ {
+			off := binary.PutUvarint(buf, 0x130691)
+			buf[off] = 0
+			off++
+			off += binary.PutUvarint(buf[off:], uint64(n))
+			off += binary.PutUvarint(buf[off:], 0)
+			crc := crc32.Checksum(buf[:off], tab)
+			cb := binary.AppendUvarint(nil, uint64(crc))
+			l := len(cb)
+			if l >= 2 && cb[l-1] == 0x01 && cb[l-2] == 0x80 {
+				hdrLens[0] = append(hdrLens[0], n)
+			}
+			if l < 5 && len(hdrLens[1]) < 200 {
+				hdrLens[1] = append(hdrLens[1], n)
+			}
+			if bytes.Contains(cb, []byte{0x91, 0x8d}) {
+				hdrLens[2] = append(hdrLens[2], n)
+			}
+		}
+	})
+	return hdrLens
+}
+
 // BlobGen generates payloads: nil / empty (when allowed), short literals and patterned blobs whose
 // lengths cluster around the given interesting sizes (±3).
 func BlobGen(allowNil, allowEmpty bool, sizes []int, maxLen int) *rapid.Generator[Blob] {
@@ -122,7 +161,11 @@ func BlobGen(allowNil, allowEmpty bool, sizes []int, maxLen int) *rapid.Generato
 			return Blob{Lit: rapid.SliceOfN(rapid.SampledFrom([]byte{0x00, 0x01, 0x7f, 0x80, 0x91, 0x8d, 0x4c, 0xff, 'a', 'b'}), n, n).Draw(t, "lit")}
 		}
 		n := 1
-		if len(sizes) > 0 && rapid.IntRange(0, 3).Draw(t, "near") > 0 {
+		if hb := HeaderBoundaryLengths()[rapid.IntRange(0, 2).Draw(t, "hbclass")]; len(hb) > 0 && hb[0] <= maxLen && rapid.IntRange(0, 9).Draw(t, "hdrboundary") == 0 {
+			// a length whose record header checksum has a boundary shape (exactly, no delta)
+			k := sort.SearchInts(hb, maxLen+1)
+			n = hb[rapid.IntRange(0, k-1).Draw(t, "hb")]
+		} else if len(sizes) > 0 && rapid.IntRange(0, 3).Draw(t, "near") > 0 {
 			n = rapid.SampledFrom(sizes).Draw(t, "size") + rapid.IntRange(-3, 3).Draw(t, "delta")
 		} else {
 			n = rapid.IntRange(1, maxLen).Draw(t, "len")
